@@ -6,6 +6,9 @@
 //   H when      dispatch_after_f(when, q, ...) with the final dispatch_activate of _dispatch_after redirected to a recorder
 //        -> 0 (dropped) | 1 (plain dispatch_async: the function ran without a timer) | 2 clock target deadline interval flags
 //           followed by | up1 mono1 wall1 up2 mono2 wall2
+//   T clock back leeway interval prev abs   the library's own _dispatch_source_timer_data (source.c:505: the handler-side
+//        catch-up of a timer that fired with the DISARMED marker) on a record whose target is `abs`, or if abs = 0
+//        (now on `clock`) - back; -> target deadline data target' deadline' | clocks as for G
 #include "internal.h"
 static void c11_activate_hook(dispatch_object_t dou);
 #define dispatch_activate c11_activate_hook
@@ -69,6 +72,18 @@ int main(void)
 			dispatch_sync_f(q, NULL, ran_fn); ran--; // barrier: an immediately submitted function has run by now
 			if (hooked) printf("2 %u %" PRIu64 " %" PRIu64 " %" PRIu64 " %u | ", (hflags >> 2) & 3, hv.target, hv.deadline, hv.interval, hflags);
 			else printf("%d | ", ran > before ? 1 : 0);
+		} else if (line[0] == 'T') {
+			unsigned long long clock, lee, itv, prev, abs; long long back;
+			sscanf(line + 1, "%llu %lld %llu %llu %llu %llu", &clock, &back, &lee, &itv, &prev, &abs);
+			struct dispatch_timer_source_refs_s dt; memset(&dt, 0, sizeof dt);
+			dt.du_is_timer = true; dt.du_ident = (uint32_t)clock; dt.du_timer_flags = (uint8_t)(clock << 2);
+			uint64_t n0 = _dispatch_time_now((dispatch_clock_t)clock);
+			uint64_t tg = abs ? abs : (uint64_t)((int64_t)n0 - back);
+			dt.dt_timer.target = tg; dt.dt_timer.deadline = tg + lee; dt.dt_timer.interval = itv;
+			clocks(c1);
+			unsigned long data = _dispatch_source_timer_data(&dt, prev);
+			clocks(c2);
+			printf("%" PRIu64 " %" PRIu64 " %lu %" PRIu64 " %" PRIu64 " | ", tg, (uint64_t)(tg + lee), data, dt.dt_timer.target, dt.dt_timer.deadline);
 		} else continue;
 		printf("%" PRIu64 " %" PRIu64 " %" PRIu64 " %" PRIu64 " %" PRIu64 " %" PRIu64 "\n", c1[0], c1[1], c1[2], c2[0], c2[1], c2[2]);
 		fflush(stdout);
